@@ -23,14 +23,27 @@ func init() {
 			"the host function runs at activation depth 0 (CallByParam from Go), called from a Lua function whose locals hold guard sentinels (fixed-arity and vararg callers, so LocalBase is shifted), inside a coroutine, and after the registry has grown; the caller's guards and the values below the frame are re-read afterwards; " +
 			"(2) call contract: the full product nargs 0-3 x NRet {MultRet,0,1,2,5} x results produced 0-4 x callee {Lua, Go, __call table} x {Call, PCall, CallByParam protected/unprotected} x {returns, raises}: stack delta and contents equal the adjusted list, a failed protected call leaves neither arguments nor partial results (enumerated completely in both tiers); " +
 			"(3) object level: every pair from an operand pool (numbers, numeric and plain strings, booleans, nil, tables and userdata with __index/__newindex/__eq/__lt/__le/__concat/__len/__tostring/__metatable handlers) through GetTable/SetTable/GetField/SetField/GetGlobal/SetGlobal/Equal/RawEqual/LessThan/Concat/ObjLen/GetMetatable/ToStringMeta/Next compared with the corresponding Lua expression evaluated by a chunk in the same state on the same operands (value or error); " +
-			"non-trivial = a history with >=20 ops, any call-contract tuple, any operand pair; distinct by content hash",
+			"(4) random object cases: fresh tables/userdata whose metatables hold a random subset of __index/__newindex (function, table, chained to a second object)/__eq/__lt/__le (shared or private handlers, any truth value)/__concat/__len/__tostring/__metatable, one Go API call on one copy and the Lua expression on an identically built twin, comparing result-or-error, the log of handler invocations with their operands, and a raw dump of the object afterwards; GetGlobal/SetGlobal against a globals table carrying such __index/__newindex; " +
+			"part (2) also with Lua callees returning parameters, locals and varargs (registers below live registers) and NRet 0..6; part (1) also on small growable registries (size 40-128, grow step 1-32) so that the capacity is crossed inside the history; " +
+			"non-trivial = a history with >=20 ops, any call-contract tuple, any operand pair, any object case; distinct by content hash",
 		Assumptions: []string{
 			"part (3) is a differential inside the implementation: the Lua-level operators are themselves checked against the reference interpreter by C01/C04",
 			"mutating stack operations are only applied with valid indices (the statement quantifies reads outside the list, not writes)",
+			"ObjLen and Concat return Go int/string: handlers are generated to return integral numbers / strings only (what a non-number __len or non-string __concat result becomes is fixed by the Go types, not by Lua)",
 		},
 		CrashIsViolation: true,
 		Run:              run,
 		Replay:           replay,
+		Reproducers: map[string]func(c *fw.Ctx) (bool, string){
+			fObjLenUserdata: func(c *fw.Ctx) (bool, string) {
+				e := newObjEnv()
+				defer e.L.Close()
+				cs := &ObjCase{Kind: "objrand", Op: "ObjLen", A: &objSpec{Name: "A", Kind: "ud", Mask: map[string]int{}}}
+				g, gok, _, _ := e.eval(cs, true)
+				l, lok, _, _ := e.eval(cs, false)
+				return gok && !lok && g == "number:0", fmt.Sprintf("ObjLen(userdata without __len) = %s (ok=%v); #ud = %s (ok=%v)", g, gok, l, lok)
+			},
+		},
 	})
 }
 
@@ -222,12 +235,34 @@ func runStack(c *fw.Ctx, idx int, count bool) {
 	r := c.SubRand("stack", idx)
 	cs := Case{Kind: "stack", Idx: idx}
 	c.Begin(cs)
-	L := lua.NewState(lua.Options{RegistrySize: 256, RegistryMaxSize: 65536})
+	// registry shapes: the default one, and small growable ones whose capacity
+	// is reached (and re-allocated) in the middle of the history, by every
+	// growth step
+	opts := lua.Options{RegistrySize: 256, RegistryMaxSize: 65536}
+	if r.Intn(2) == 0 {
+		opts.RegistrySize = []int{40, 48, 64, 100, 128}[r.Intn(5)]
+		opts.RegistryGrowStep = []int{1, 1, 2, 3, 7, 32}[r.Intn(6)]
+	}
+	L := lua.NewState(opts)
 	defer L.Close()
 	counts := map[string]int{}
 	nops := 20 + r.Intn(61)
+	if opts.RegistryGrowStep != 0 {
+		counts[fmt.Sprintf("registry_size=%d,step=%d", opts.RegistrySize, opts.RegistryGrowStep)]++
+	}
 	bad := ""
 	L.SetGlobal("probe", L.NewFunction(func(L *lua.LState) int {
+		if opts.RegistryGrowStep != 0 {
+			// bring the registry to within a few slots of its capacity, so that
+			// the history crosses it (and re-allocates) at one of its operations
+			st := lua.VerifSnapshot(L)
+			if free := st.RegCap - st.RegTop; free <= 300 {
+				for i := free - r.Intn(8); i > 0; i-- {
+					L.Push(lua.LNumber(-i))
+				}
+				counts["registry_filled_to_capacity"]++
+			}
+		}
 		if v := stackHistory(L, r, nops, counts); v != "" && bad == "" {
 			bad = v
 		}
@@ -272,6 +307,10 @@ func runStack(c *fw.Ctx, idx int, count bool) {
 	if count {
 		c.Count("stack_histories_"+kind, 1)
 		for k, v := range counts {
+			if strings.HasPrefix(k, "registry_size") {
+				c.Count("stack_histories_"+k, int64(v))
+				continue
+			}
 			c.Count("stackop_"+k, int64(v))
 		}
 	}
@@ -290,11 +329,31 @@ func runCallContract(c *fw.Ctx, count bool) {
 	L := lua.NewState()
 	defer L.Close()
 	idx := 0
-	for _, callee := range []string{"lua", "go", "callable"} {
+	for _, callee := range []string{"lua", "go", "callable", "lua-params", "lua-locals", "lua-vararg"} {
 		for produced := 0; produced <= 4; produced++ {
 			for _, fails := range []bool{false, true} {
 				var fn lua.LValue
+				if produced > 3 && strings.HasPrefix(callee, "lua-") {
+					continue
+				}
 				switch callee {
+				case "lua-params", "lua-locals", "lua-vararg":
+					// results that are not fresh constants: the first parameters, the
+					// first locals (registers right below other live registers), or
+					// select() of the varargs
+					names := []string{"a", "b", "c"}
+					head := "return function(a, b, c) local pad1, pad2 = 'pad1', 'pad2' "
+					if callee == "lua-locals" {
+						head = "return function(...) local a, b, c, pad1 = 500, 501, 502, 'pad1' "
+					}
+					if callee == "lua-vararg" {
+						head = "return function(...) local a, b, c = ... local pad1 = 'pad1' "
+					}
+					if fails {
+						head += "if pad1 then error('Ecall') end "
+					}
+					src := head + "return " + strings.Join(names[:produced], ", ") + " end"
+					fn = gl.MustLoad(L, src)
 				case "lua", "callable":
 					var sb strings.Builder
 					sb.WriteString("return function(...) ")
@@ -342,7 +401,7 @@ func runCallContract(c *fw.Ctx, count bool) {
 					})
 				}
 				for nargs := 0; nargs <= 3; nargs++ {
-					for _, nret := range []int{lua.MultRet, 0, 1, 2, 5} {
+					for _, nret := range []int{lua.MultRet, 0, 1, 2, 3, 4, 5, 6} {
 						for _, how := range []string{"Call", "PCall", "CallByParam", "CallByParam-unprotected"} {
 							if fails && (how == "Call" || how == "CallByParam-unprotected") {
 								continue // an unprotected failure propagates as a panic by contract
@@ -406,6 +465,13 @@ func runCallContract(c *fw.Ctx, count bool) {
 									var w lua.LValue = lua.LNil
 									if i <= produced {
 										w = lua.LNumber(499 + i)
+										if callee == "lua-params" || callee == "lua-vararg" {
+											// the i-th argument (arguments are 0, 1, 2), nil when not passed
+											w = lua.LNil
+											if i <= nargs {
+												w = lua.LNumber(i - 1)
+											}
+										}
 									}
 									if g := L.Get(base + i); g != w {
 										bad = fmt.Sprintf("result %d is %v, want %v", i, g, w)
@@ -678,6 +744,19 @@ func run(c *fw.Ctx) {
 	}
 	runCallContract(c, true)
 	runObjects(c, true)
+	e := newObjEnv()
+	defer e.L.Close()
+	n2 := c.Pick(40000, 2000000)
+	for i := 0; i < n2; i++ {
+		if !c.Mine(i) {
+			continue
+		}
+		cs := genObjCase(c.SubRand("objrand", i), i)
+		runObjRand(c, e, cs, true)
+		if i == 5 {
+			c.Sample(cs)
+		}
+	}
 	c.Sample(map[string]any{"kind": "call-contract tuple", "example": "callee=lua produced=3 fails=false nargs=2 NRet=5 how=PCall -> stack grows by 5: 500,501,502,nil,nil"})
 }
 
@@ -688,6 +767,15 @@ func replay(c *fw.Ctx, raw json.RawMessage) {
 		return
 	}
 	switch cs.Kind {
+	case "objrand":
+		var oc ObjCase
+		if err := json.Unmarshal(raw, &oc); err != nil {
+			fmt.Println("bad case:", err)
+			return
+		}
+		e := newObjEnv()
+		defer e.L.Close()
+		runObjRand(c, e, &oc, false)
 	case "stack":
 		runStack(c, cs.Idx, false)
 	case "call":
